@@ -36,12 +36,19 @@ func (t *tr) closure(fl *ast.FuncLit) string {
 		if len(f.Names) == 0 {
 			return t.bad("closure with unnamed parameters", fl)
 		}
+		if t.spec.CaptureOut != "" && !t.spec.KeepCtx && exprString(f.Type) == "context.Context" {
+			continue // (C03) contexts are not modelled: the call sites drop the argument, the lambda drops the parameter
+		}
 		for _, n := range f.Names {
 			if n.Name == "_" {
 				names = append(names, "_")
 				continue
 			}
-			names = append(names, t.ident(n.Name))
+			if lt, ok := t.spec.AutoTypes[exprString(f.Type)]; ok && t.spec.CaptureOut != "" {
+				names = append(names, "("+t.ident(n.Name)+" : "+lt+")") // (C03) a lambda bound by `let` needs its binder types
+			} else {
+				names = append(names, t.ident(n.Name))
+			}
 			if (sp.Writer != "" && n.Name == sp.Writer) || (sp.Writer == "" && exprString(f.Type) == "http.ResponseWriter") {
 				sp.Writer = n.Name // the handler closure's response writer is threaded as a value
 				hasWriter = true
@@ -94,6 +101,12 @@ func (t *tr) closure(fl *ast.FuncLit) string {
 	savedLoop, savedDepth, savedCollect, savedBreak := t.loop, t.loopDepth, t.collect, t.breakK
 	t.spec = &sp
 	t.declared = map[string]bool{} // captured variables are read-only for the functional reading
+	if t.spec.CaptureOut != "" && len(results) > 0 {
+		// (C03) ... except the ONE variable the spec names: the lambda returns its final value next to the result (AlsoRet)
+		t.declared[t.spec.CaptureOut] = true
+		sp.AlsoRet = t.spec.CaptureOut
+		t.declareFields(fl.Type.Results) // named results (`err`) are the literal's own variables
+	}
 	t.declareFields(fl.Type.Params)
 	t.inClosure = hasWriter
 	t.errInScope = false
@@ -103,6 +116,29 @@ func (t *tr) closure(fl *ast.FuncLit) string {
 	t.indent--
 	t.spec, t.declared, t.inClosure, t.errInScope = savedSpec, savedDecl, savedIn, savedErr
 	t.loop, t.loopDepth, t.collect, t.breakK = savedLoop, savedDepth, savedCollect, savedBreak
+	if t.spec.CaptureOut != "" && t.spec.CaptureType != "" && sp.AlsoRet == t.spec.CaptureOut && len(results) > 0 {
+		// (C03) the lambda is bound by `let`: its result type (`.error ..` needs one) is spelled out
+		lt := func(e ast.Expr) string {
+			if s := leanTypeOf(e); s != "" {
+				return s
+			}
+			return t.spec.AutoTypes[exprString(e)]
+		}
+		res := ""
+		switch sp.Ret {
+		case RetErr:
+			res = "Go.R Unit"
+		case RetVal:
+			res = lt(results[0].Type)
+		case RetValErr:
+			if v := lt(results[0].Type); v != "" {
+				res = "Go.R " + v
+			}
+		}
+		if res != "" {
+			body = "((" + body + ") : (" + res + " × " + t.spec.CaptureType + "))"
+		}
+	}
 	return "(fun " + strings.Join(names, " ") + " =>\n" + t.pad() + "  " + body + ")"
 }
 
